@@ -530,6 +530,9 @@ func descD(v ssa.Value, depth int) string {
 		if name == "builtin:len" || name == "builtin:cap" {
 			return "len(" + descD(x.Call.Args[0], depth+1) + ")"
 		}
+		if m := sortedKeysOf(x); m != nil {
+			return "makeslice" // slices.Sorted(maps.Keys(m)): a locally built (sorted) list of m's keys
+		}
 		if x.Call.Signature().Results().Len() == 1 {
 			if d, ok := computedIntResult(x, 0, depth); ok {
 				return d
@@ -1152,6 +1155,18 @@ func computedIntResult(c *ssa.Call, k, depth int) (string, bool) {
 		return "", false // (values that exist only inside the helper keep the call's name)
 	}
 	return out, true
+}
+
+// sortedKeysOf: c is slices.Sorted(maps.Keys(m)); returns m.
+func sortedKeysOf(c *ssa.Call) ssa.Value {
+	if calleeName(c) != "slices.Sorted" || len(c.Call.Args) != 1 {
+		return nil
+	}
+	k, ok := c.Call.Args[0].(*ssa.Call)
+	if !ok || calleeName(k) != "maps.Keys" || len(k.Call.Args) != 1 {
+		return nil
+	}
+	return k.Call.Args[0]
 }
 
 // descNN describes a value that is known (or required elsewhere) to be non-nil: for the result of a
